@@ -264,6 +264,17 @@ def sc_skbase(cfg):
         K = clone(est)
         C.true(K is not est, "clone/distinct-objects")
         _same_params(C, K.get_params(), exp, "clone/equal-parameters")
+        # SkBase holds whatever keywords it is given: a target built with FEWER keywords takes the others from the
+        # source's get_params (same protocol call), and a single new key is reported afterwards
+        small = SkBaseLearner(alpha=C.int("p3"))
+        r2 = small.set_params(**est.get_params(deep=True))
+        C.true(r2 is small, "set_params-returns-self")
+        _same_params(C, small.get_params(deep=True), exp, "roundtrip/same-parameters(target-built-with-fewer-keywords)")
+        _same_params(C, clone(small).get_params(), exp, "clone/equal-parameters(after-set_params-with-new-keys)")
+        g = C.int("g")
+        one = SkBaseLearner(alpha=p)
+        one.set_params(gamma=g)
+        _same_params(C, one.get_params(deep=True), {"alpha": p, "gamma": g}, "set_params-changes-exactly-the-given-key(new-key)")
 
     return scenario
 
